@@ -217,6 +217,16 @@ def _by_id(items, key, f):
     return {k: (v[0] if len(v) == 1 else {"DUPLICATE": v}) for k, v in out.items()}
 
 
+def snapshot_network(net):
+    """the lanelet-network part of `snapshot` (what `open_lanelet_network` returns)"""
+    return {
+        "n_lanelets": len(net.lanelets), "lanelets": _by_id(net.lanelets, lambda x: x.lanelet_id, snap_lanelet),
+        "n_signs": len(net.traffic_signs), "signs": _by_id(net.traffic_signs, lambda x: x.traffic_sign_id, snap_sign),
+        "n_lights": len(net.traffic_lights), "lights": _by_id(net.traffic_lights, lambda x: x.traffic_light_id, snap_light),
+        "n_intersections": len(net.intersections),
+        "intersections": _by_id(net.intersections, lambda x: x.intersection_id, snap_intersection)}
+
+
 def snapshot(scenario, pps):
     net = scenario.lanelet_network
     snap = {
